@@ -26,6 +26,7 @@ func runC12(p *core.Prog, r *core.Result) {
 		"R12.2 the sanitiser cleans first and then rejects '..' and '../…' on the cleaned value, which is what it returns",
 		"R12.3 a target's record path is work/<kind>s/<one URL-escaped component derived from package and name>",
 		"R12.4 the project's target and module tables are keyed only by printed labels ((*Label).String())",
+		"R12.10 every name stored in a Label outside the label package's own constructors is valid by construction: a constant without ':' or '/', another label's name, or a value that passed label.New / label.Parse - a name taken from module code unvalidated (target(name=\"a:b\")) gives a label that does not survive print + parse",
 		"R12.6 (necessary for canonicity) every package stored in a Label is canonical by construction: a Clean/Join result, another label's package, \"\" or \"//\"",
 		"R12.9 label.New - which, unlike Parse, is handed the components separately - tests its name for both ':' and '/', its kind for ':' and '/', and its project for ':' (the characters the printed form uses as delimiters), so every label it accepts prints to a string that parses back",
 		"R12.8 (necessary for canonicity: Clean is idempotent) inside Clean's loop a separator is written only in front of an element: from every place a '/' is appended, every feasible path (branch conditions interpreted by the zone analysis) appends an element byte before Clean returns or appends another separator",
@@ -381,6 +382,7 @@ func runC14(p *core.Prog, r *core.Result) {
 		"R14.1 the path GC marks for a target, the path records are read from and the path they are renamed onto are all targetInfoPath of the target's label",
 		"R14.2 every live target and source is marked (loop over Project.targets without filter); the index file and the temp directory are marked under the names their writers use",
 		"R14.3 marking a path marks all its parents up to the project root",
+		"R14.7 the index is a faithful list of the project's targets in both directions: saveIndex lists every entry of Project.targets and loadIndex registers every entry the index lists (each loop reaches its append / registration on every iteration that does not return an error - no filter), so the project a collection loaded through the index marks is the project of the last full load",
 		"R14.6 every successful return of saveIndex has rewritten the index file (no 'looks current' shortcut): the index a collection may load from always lists the targets of the last full load",
 		"R14.5 the sweep prunes the walk (SkipDir) only below a missing path or a directory, never after handling a file: every stale record and stray temporary of a directory is visited",
 		"R14.4 the sweep removes only entries of the build-state directory walk that are not marked; GC reaches no other file-system mutator",
@@ -758,6 +760,9 @@ func runC14(p *core.Prog, r *core.Result) {
 		r.Floor("R14.6", nRet, 1, "successful returns of saveIndex")
 	}
 
+	// ---- R14.7 index round trip without filters
+	checkIndexComplete(p, r)
+
 	// ---- R14.5 the sweep visits every entry: it prunes (SkipDir) only below a path that does not exist or below a
 	// directory; SkipDir returned for a *file* makes WalkDir skip the remaining entries of that file's directory
 	nSkip := 0
@@ -1121,6 +1126,87 @@ func checkCanonicalByConstruction(p *core.Prog, r *core.Result) {
 		})
 	}
 	r.Floor("R12.6", n, 3, "assignments of Label.Package in the module")
+
+	// ---- R12.10 names
+	var valid func(v ssa.Value, depth int, seen map[ssa.Value]bool) (bool, string)
+	valid = func(v ssa.Value, depth int, seen map[ssa.Value]bool) (bool, string) {
+		v = core.Unwrap(v)
+		if seen[v] {
+			return true, ""
+		}
+		seen[v] = true
+		if depth > 6 {
+			return false, "derivation too deep"
+		}
+		if s, ok := core.ConstString(v); ok {
+			if strings.ContainsAny(s, ":/") {
+				return false, fmt.Sprintf("the constant %q", s)
+			}
+			return true, ""
+		}
+		switch x := v.(type) {
+		case *ssa.UnOp:
+			if x.Op == token.MUL && core.IsField(x.X, pkgLabel, "Label", "Name") {
+				return true, ""
+			}
+		case *ssa.Field:
+			if core.IsField(x, pkgLabel, "Label", "Name") {
+				return true, ""
+			}
+		case *ssa.Phi:
+			for _, e := range x.Edges {
+				if ok, why := valid(e, depth+1, seen); !ok {
+					return false, why
+				}
+			}
+			return true, ""
+		case *ssa.Parameter:
+			fn := x.Parent()
+			idx := paramIndex(fn, x)
+			callers := p.StaticCallers(fn)
+			if len(callers) == 0 || len(p.FuncValueUses(fn)) > 0 {
+				return false, "the parameter " + x.Name() + " of " + fname(fn) + " (callers unknown)"
+			}
+			for _, c := range callers {
+				args := c.Common().Args
+				if idx >= len(args) {
+					return false, "a variadic argument"
+				}
+				if ok, why := valid(args[idx], depth+1, seen); !ok {
+					return false, "the parameter " + x.Name() + " of " + fname(fn) + ", which receives " + why
+				}
+			}
+			return true, ""
+		case *ssa.Call:
+			if cal := core.Callee(x); cal != nil {
+				return false, "the result of " + core.CalleeKey(cal)
+			}
+		}
+		return false, "a string that was not validated (" + v.String() + ")"
+	}
+	nn := 0
+	perFnN := map[string]int{}
+	for _, fn := range p.ModuleFuncs() {
+		if fn.Pkg != nil && fn.Pkg.Pkg.Path() == pkgLabel {
+			continue // the constructors themselves: R12.9 decides their validation
+		}
+		core.Instrs(fn, func(in ssa.Instruction) {
+			st, ok := in.(*ssa.Store)
+			if !ok || !core.IsField(st.Addr, pkgLabel, "Label", "Name") {
+				return
+			}
+			nn++
+			perFnN[fname(fn)]++
+			construct := fmt.Sprintf("%s#Label.Name-%d", fname(fn), perFnN[fname(fn)])
+			ok, why := valid(st.Val, 0, map[ssa.Value]bool{})
+			if ok {
+				r.OK("R12.10", construct, p.InstrPos(st), "the name stored in this label is a constant without ':' or '/', or another label's name")
+			} else {
+				r.Bad("R12.10", construct, p.InstrPos(st), "a label's name is set from %s without passing through label.New or label.Parse: a name containing ':' or '/' gives a label whose printed form parses to a different label (\"//pkg:test:unit\" is kind \"//pkg\", package \"test\", name \"unit\"), so the target cannot be named as a dependency, and a project loaded through the index knows it under another label - a collection then deletes its record", why)
+			}
+		})
+	}
+	r.Floor("R12.10", nn, 2, "assignments of Label.Name outside package label")
 }
 
 // lazybufSite: the index/slice site operates on a field of a lazybuf (b.s / b.buf) inside a method of lazybuf. These
@@ -1351,4 +1437,93 @@ func checkNewValidation(p *core.Prog, r *core.Result) {
 		r.Check(len(missing) == 0, "R12.9", construct, p.Pos(nw.Pos()), fmt.Sprintf("the %s is tested for %q", prm.Name(), w), fmt.Sprintf("the %s handed to New is not tested for %s: a label is accepted whose printed form has an extra delimiter, so it does not parse or parses to a different label (New(\"\", \"\", \"//a\", \"b:c\") prints //a:b:c, which reads back as kind //a, package b, name c); source files and flags get such labels from user input", prm.Name(), strings.Join(missing, ", ")))
 	}
 	r.Floor("R12.9", n, 3, "separately supplied components of label.New")
+}
+
+// checkIndexComplete implements R14.7.
+func checkIndexComplete(p *core.Prog, r *core.Result) {
+	li := need(p, r, "R14.7", "", "Project", "loadIndex")
+	si := need(p, r, "R14.7", "", "Project", "saveIndex")
+	if li == nil || si == nil {
+		return
+	}
+	// loopComplete: every iteration of the loop whose body contains `site` executes site or leaves the function
+	loopComplete := func(fn *ssa.Function, site ssa.Instruction) (bool, bool) {
+		sb := site.Block()
+		if !core.Reaches(sb, sb, false) {
+			return false, false
+		}
+		// the innermost loop header around the site: a dominator of its block that is the target of a back edge from
+		// a block the site's block reaches
+		var header *ssa.BasicBlock
+		for b := sb; b != nil && header == nil; b = b.Idom() {
+			for _, t := range b.Preds {
+				if b.Dominates(t) && (t == sb || core.Reaches(sb, t, true)) {
+					header = b
+				}
+			}
+		}
+		if header == nil {
+			return false, true
+		}
+		for _, sc := range header.Succs {
+			if !core.Reaches(sc, sb, true) && sc != sb {
+				continue // the exit edge
+			}
+			// from the body entry, can the header be reached again without executing the site?
+			if core.BlockReachesAvoiding(sc, header.Instrs[0], func(in ssa.Instruction) bool { return in == site }) {
+				return false, true
+			}
+		}
+		return true, true
+	}
+	// loadIndex: registration = MapUpdate into Project.targets
+	nReg := 0
+	core.Instrs(li, func(in ssa.Instruction) {
+		mu, ok := in.(*ssa.MapUpdate)
+		if !ok || !core.LoadOfField(mu.Map, pkgRoot, "Project", "targets") {
+			return
+		}
+		nReg++
+		ok2, inLoop := loopComplete(li, mu)
+		overIndex := core.DependsOn(mu.Key, core.SliceOpts{Stores: true, ThroughCall: func(*ssa.Call) bool { return true }}, func(v ssa.Value) bool {
+			return core.IsField(v, pkgRoot, "index", "Targets")
+		})
+		r.Check(ok2 && inLoop && overIndex, "R14.7", "dawn.(*Project).loadIndex#registers-every-listed-target", p.InstrPos(mu), "every entry of the index is registered (or the load fails)", "loadIndex can skip entries of the index (a filter in its loop): a project loaded through the index - as the collector's is - then lacks targets or sources that exist, the collection does not mark their records and deletes them, and the next build re-executes them and everything that depends on them")
+	})
+	r.Floor("R14.7", nReg, 1, "registrations in loadIndex")
+	// saveIndex (or a helper it calls): the list of target summaries is appended to inside the range over
+	// Project.targets
+	nApp := 0
+	for h := range staticClosure(p, si) {
+		if h.Pkg != si.Pkg {
+			continue
+		}
+		core.Instrs(h, func(in ssa.Instruction) {
+			call, ok := in.(*ssa.Call)
+			if !ok {
+				return
+			}
+			b, isB := call.Call.Value.(*ssa.Builtin)
+			if !isB || b.Name() != "append" || len(call.Call.Args) != 2 {
+				return
+			}
+			sl, ok := call.Type().Underlying().(*types.Slice)
+			if !ok {
+				return
+			}
+			if n, ok := sl.Elem().(*types.Named); !ok || n.Obj().Name() != "TargetSummary" {
+				return
+			}
+			nApp++
+			ok2, inLoop := loopComplete(h, call)
+			var rg *ssa.Range
+			core.Instrs(h, func(x ssa.Instruction) {
+				if y, ok := x.(*ssa.Range); ok && core.LoadOfField(y.X, pkgRoot, "Project", "targets") {
+					rg = y
+				}
+			})
+			r.Check(ok2 && inLoop && rg != nil, "R14.7", "dawn.(*Project).saveIndex#lists-every-target", p.InstrPos(call), "every entry of Project.targets is listed in the index", "saveIndex can leave entries of Project.targets out of the index (a filter in its loop): a collection that loads the project through the index does not know them and deletes their records")
+		})
+	}
+	r.Floor("R14.7", nApp, 1, "appends to index.Targets in saveIndex")
 }
